@@ -51,7 +51,13 @@ def save_meta(i, m):
 
 def demo_target(i):
     notes = open(os.path.join(SEEDED, i, "notes.md")).read() if os.path.exists(os.path.join(SEEDED, i, "notes.md")) else ""
-    m = re.search(r"append(?:ed)?[^`\n]*`(src/[\w/]+\.rs)`", notes, re.I)
+    for line in notes.splitlines():
+        if re.search(r"append", line, re.I):
+            m = re.search(r"`(src/[\w/]+\.rs)`", line)
+            if m:
+                return m.group(1)
+    demo = open(os.path.join(SEEDED, i, "demo.rs")).read() if os.path.exists(os.path.join(SEEDED, i, "demo.rs")) else ""
+    m = re.search(r"append[^\n]*?(src/[\w/]+\.rs)", demo, re.I)
     return m.group(1) if m else "src/chess/mod.rs"
 
 
@@ -138,8 +144,35 @@ def cmd_check(i, props):
         drop(wt)
 
 
+def cmd_table():
+    rows = []
+    for i in sorted(os.listdir(SEEDED)):
+        if not os.path.isdir(os.path.join(SEEDED, i)):
+            continue
+        m = load_meta(i)
+        conf = m.get("confirmed", {})
+        checks = m.get("checks", {})
+        det = []
+        for p, r in sorted(checks.items()):
+            obs = sorted(set(re.sub(r".*replay=\S*/%s-(.*?)\.json.*" % p, r"\1", l) for l in r.get("lines", []) if l.startswith("VIOLATION")))
+            nat = "native replay confirmed" if any("confirmed-natively" in x for x in r.get("native_replays", [])) else ""
+            und = [l for l in r.get("lines", []) if l.startswith("UNDECIDED")]
+            det.append(f"`{p}` exit {r.get('exit')}" + (": " + ", ".join(obs) if obs else "") + (f" ({nat})" if nat else "") + (f"; {len(und)} undecided" if und else ""))
+        notes = open(os.path.join(SEEDED, i, "notes.md")).read() if os.path.exists(os.path.join(SEEDED, i, "notes.md")) else ""
+        title = next((l.lstrip("# ").strip() for l in notes.splitlines() if l.startswith("#")), "")
+        rows.append(f"| {i} | {title[:110]} | {'yes' if conf.get('ok') else 'NO' if conf else '-'} | {'<br>'.join(det) if det else 'not run yet'} |")
+    out = ["# Seeded defects", "",
+           "Each seed: `patch.diff` (never applied to /repo itself), `demo.rs` (fails with / passes without the change), `notes.md` (the sub-agent's report), `meta.json` (what was confirmed and run here).",
+           "", "| id | change | confirmed here | checks run against it (exit 1 = VIOLATION reported, 0 = missed, 2 = undecided) |", "|---|---|---|---|"] + rows
+    open(os.path.join(SEEDED, "README.md"), "w").write("\n".join(out) + "\n")
+    print("\n".join(out))
+
+
 if __name__ == "__main__":
     c = sys.argv[1]
+    if c == "table":
+        cmd_table()
+        sys.exit(0)
     if c == "import":
         cmd_import(sys.argv[2], sys.argv[3])
     elif c == "confirm":
